@@ -109,6 +109,8 @@ def gen_grids(ctx, count):
         # all-pairs tables cost N^2 numbers in the Coq case files: in the thorough tier only the grids generated for
         # the index relations (every third) go up to 200 cells, the others up to 30 cells
         pair_limit = 200 if (ctx.quick() or torus_focus) else 30
+        if not all(x == x and abs(x) != float("inf") for x in lengths):
+            continue      # a generated length overflowed: not a box
         grids.append({"lengths": [f2b(x) for x in lengths], "ns": ns, "cps": cps, "layers": layers,
                       "periodic": periodic, "torus": ncell <= pair_limit and in_torus_domain,
                       "seed": rng.randrange(2 ** 31), "nrand": 20, "with_L": rng.random() < 0.3})
@@ -130,7 +132,9 @@ def gen_grids(ctx, count):
 def out_of_domain(g):
     """Grids whose cell side underflows (side length zero or cells of a single float): the constructor
     rejects them; only generated by the edge stream with subnormal-adjacent lengths."""
-    return any(b2f(b) < 2.0 ** -1000 for b in g["lengths"])
+    import math
+    # ... and grids with a box length that is not a finite number (a generated length that overflowed): not a box
+    return any(b2f(b) < 2.0 ** -1000 or not math.isfinite(b2f(b)) for b in g["lengths"])
 
 
 # ----------------------------------------------------------------------------------------------
